@@ -356,7 +356,9 @@ def run(ctx):
     if len(stale_snapshots(control)[0]) != 1:
         raise AnalysisError('R20e: positive control not recognised')
     n_loops = 0
-    for f in (ra, fn):
+    from ..util import helper_closure
+    ra_fns = helper_closure(repo, ra)          # the passes may be split into step functions
+    for f in ra_fns + [x for x in helper_closure(repo, fn) if x not in ra_fns]:
         found, nl = stale_snapshots(f.node)
         n_loops += nl
         for loop, u, X, d, m in found:
@@ -373,7 +375,7 @@ def run(ctx):
     ctx.floor('R20e', 'loops examined', n_loops, 6)
     # ---- R20f: a pass that hands out labels respects the labels already handed out -------
     n_sites = 0
-    for loop in [n for n in ast.walk(ra.node) if isinstance(n, ast.For)]:
+    for raf, loop in [(f, n) for f in ra_fns for n in ast.walk(f.node) if isinstance(n, ast.For)]:
         lvs = {x.id for x in ast.walk(loop.target) if isinstance(x, ast.Name)}
         if not lvs:
             continue
@@ -406,7 +408,7 @@ def run(ctx):
                        f'{[ast.unparse(d)[:60] for d in body_defs.get(ast.unparse(n.targets[0].slice), [])]}'
                        f', which does not depend on the current content of {X}: a channel that an '
                        f'earlier iteration already gave to another label is taken again, so that '
-                       f'label ends below its target count', f'{ra.module.relpath}:{n.lineno}')
+                       f'label ends below its target count', f'{raf.module.relpath}:{n.lineno}')
     ctx.floor('R20f', 'label-assignment sites', n_sites, 2)
     # ---- R20i: the cost model the refinement minimises is monotone for FRACTIONAL shares ---
     # candidates are priced with float-accumulated shares (k/C - eps): "never raises the cost"
@@ -427,8 +429,8 @@ MANIFEST = {
             'shares reach _reassign_precisions in the original order (permutation typestate); '
             'counters are not float-stepped / truncated. Correctness of the greedy reassignment '
             'itself is not decided.',
-    'note': 'Today\'s tree violates R20c and R20d (known findings: permutation applied twice, '
-            'float residue in counts).',
+    'note': 'R20c / R20d / R20g violations of the pinned tree are repaired by fix: commits; the '
+            'first-pass claim defect of _reassign_precisions (R20f) is a known finding.',
     'technique': 'guard analysis + index provenance + permutation typestate + inexact-counter '
                  'detection',
 }
